@@ -17,7 +17,7 @@ from typing import Dict, List, Set
 from ..absstr import Evaluator, alphabet_of
 from ..astq import assignments, calls, kwarg, local_from, names_in, params, stmts
 from ..callgraph import fkey
-from ..cfg import cond_atoms
+from ..cfg import flatten_conj, path_conditions, cond_atoms
 from ..report import Check
 from ..source import AnalysisError, Project, ancestors, body_walk, dotted, enclosing_stmt, last_attr, norm, short
 from .common import world
@@ -426,6 +426,27 @@ def s4(chk: Check, proj: Project, w) -> None:
             if okf:
                 accepted = set(v)
     chk.ob("S4", "dependencies:_CONTENT_TYPES-vs-_cache_script", dm.loc(cs), kinds == accepted and bool(kinds), f"content types {sorted(kinds)} = kinds accepted by _cache_script {sorted(accepted)}")
+    # the body the view returns is what the client receives: the library's own middleware must leave it alone
+    mw = dm.cls("ComponentDependencyMiddleware")
+    pr = next((x for x in mw.body if isinstance(x, ast.FunctionDef) and any(last_attr(c.func) == "render_dependencies" for c in calls(x))), None)
+    if pr is None or not (okc and isinstance(table, dict)):
+        chk.undecided("S4", "dependencies:ComponentDependencyMiddleware:leaves-script-responses-alone", dm.loc(mw), "middleware method calling render_dependencies / content type table not found")
+    else:
+        chk.analysed(f"{dm.name}:ComponentDependencyMiddleware.{pr.name}")
+        rc_ = next(c for c in calls(pr) if last_attr(c.func) == "render_dependencies")
+        pref = []
+        for e, pol in flatten_conj(path_conditions(enclosing_stmt(rc_))):
+            if pol and isinstance(e, ast.Call) and isinstance(e.func, ast.Attribute) and e.func.attr == "startswith" and "Content-Type" in norm(e.func.value) and e.args:
+                okp, pv = proj.try_fold(dm, e.args[0])
+                if okp:
+                    pref.append(pv if isinstance(pv, tuple) else (pv,))
+        if not pref:
+            chk.undecided("S4", "dependencies:ComponentDependencyMiddleware:leaves-script-responses-alone", dm.loc(rc_), "no Content-Type prefix test guards render_dependencies")
+        else:
+            hit = sorted(ct for ct in table.values() if all(any(ct.startswith(p_) for p_ in alt) for alt in pref))
+            chk.ob("S4", "dependencies:ComponentDependencyMiddleware:leaves-script-responses-alone", dm.loc(rc_), not hit,
+                   f"render_dependencies runs only for Content-Type prefixes {pref}; the view's own {sorted(table.values())} never match" if not hit else
+                   f"the middleware post-processes responses whose Content-Type starts with {pref}, which includes the script view's own {hit}: a component script containing `</body>` / `<head>` text gets the dependency manager's <script> tags spliced into the JS / CSS that is served")
 
 
 def s5(chk: Check, proj: Project, w, rule: str = "S5") -> None:
